@@ -109,7 +109,22 @@ func (ec *evalCtx) evalCall(call *ast.CallExpr) Value {
 	if ec.fc.gen != nil {
 		ec.genPostHook(call, calleeFunc(ec.info, call), v)
 	}
-	ec.fc.applyUses(ec.st, "after "+ec.fc.callTag[call])
+	// clauses registered "after <call>" also see the results as result0, result1, ... (result for a single one)
+	resScope := map[string]Value{}
+	for k, a := range argScope {
+		resScope[k] = a
+	}
+	switch rv := v.(type) {
+	case *TupleV:
+		for i, x := range rv.Vs {
+			resScope[fmt.Sprintf("result%d", i)] = x
+		}
+	case nil:
+	default:
+		resScope["result0"] = rv
+		resScope["result"] = rv
+	}
+	ec.fc.applyUsesScope(ec.st, "after "+ec.fc.callTag[call], resScope)
 	return v
 }
 
@@ -117,6 +132,11 @@ func (ec *evalCtx) evalCall(call *ast.CallExpr) Value {
 func (ec *evalCtx) callWith(call *ast.CallExpr, recv Value, args []Value) Value {
 	fn := calleeFunc(ec.info, call)
 	sig, _ := ec.info.TypeOf(call.Fun).(*types.Signature)
+	if sig == nil {
+		if ft := ec.info.TypeOf(call.Fun); ft != nil {
+			sig, _ = ft.Underlying().(*types.Signature) // a value of a named function type
+		}
+	}
 	if fn != nil {
 		full := fn.Origin().FullName()
 		if m, ok := stdModels[full]; ok {
@@ -133,7 +153,7 @@ func (ec *evalCtx) callWith(call *ast.CallExpr, recv Value, args []Value) Value 
 		if ic := ec.e().ifaceContract(fn); ic != nil {
 			return ec.applyContract(ic, fn, call, recv, args, sig)
 		}
-	} else if fv, ok := ec.eval(call.Fun).(*FuncV); ok && fv.Lit != nil {
+	} else if fv, ok := ec.eval(call.Fun).(*FuncV); ok && (fv.Lit != nil || fv.AltC != nil) {
 		return ec.callClosure(fv, call, args)
 	} else if ok && len(fv.Cands) > 0 {
 		return ec.callCandidates(fv, call, args, sig)
@@ -150,6 +170,23 @@ func (ec *evalCtx) havocCall(call *ast.CallExpr, fn *types.Func, recv Value, arg
 	ec.e().havocked[name] = true
 	if sig == nil {
 		panic(unsupported("call of %s without signature", name))
+	}
+	// a function literal handed to an unknown callee may be run by it: the variables of the enclosing function that
+	// the literal assigns become unknown
+	for _, a := range args {
+		if fv, ok := a.(*FuncV); ok && fv.Lit != nil && ec.fc != nil {
+			var outer []modTarget
+			for _, t := range ec.fc.assignedIn(fv.Lit.Body) {
+				if t.obj != nil && !(t.obj.Pos() >= fv.Lit.Pos() && t.obj.Pos() < fv.Lit.End()) {
+					outer = append(outer, t)
+				}
+			}
+			ec.fc.havoc(ec.st, outer, nil)
+		}
+	}
+	// an unmodelled method of a header map may change it: its ghost view becomes unknown
+	if mv, ok := recv.(*MapV); ok && fn != nil && strings.HasPrefix(fn.FullName(), "(net/http.Header).") {
+		ec.headerLval(mv).set(Var(ec.e().fresher.name("hdr.havoc"), SArr(SStr, SStr)))
 	}
 	var leaves []*Term
 	ok := true
@@ -1057,7 +1094,7 @@ func (ec *evalCtx) havocReachable(recv Value, args []Value) {
 	e.fresher.n++
 	ec.st.ghost["$epoch"] = Int(int64(e.fresher.n))
 	for k := range ec.st.ghost {
-		if strings.HasPrefix(k, "out:") || strings.HasPrefix(k, "in:") || strings.HasPrefix(k, "tr:") || strings.HasPrefix(k, "refused:") {
+		if strings.HasPrefix(k, "out:") || strings.HasPrefix(k, "in:") || strings.HasPrefix(k, "tr:") || strings.HasPrefix(k, "refused:") || strings.HasPrefix(k, "hdr:") {
 			delete(ec.st.ghost, k)
 		}
 	}
